@@ -14,7 +14,7 @@
 const char* const PROPERTY_ID = "C07";
 const size_t PROPERTY_MAXLEN = 400;
 
-void property_init() {}
+void property_init() { vf::gen::g_huge_hosts = true; }
 
 namespace {
 
